@@ -169,6 +169,22 @@ def run(ctx):
                 break
         ctx.prove(match, "flow-pair-matches-a-drawn-edge", d)
     ctx.prove(all(used), "every-drawn-edge-has-a-flow-pair", {"missing": [n for n, u in enumerate(used) if not u]})
+    # ---- a later write from the same object must again start from the unchanged source events -------------------
+    if R["K"]:
+        written.clear()
+        ta.generate_trace_with_counters(ranks=[0])
+        if ctx.mode == "sym":
+            key = [k for k in written if "with_counters" in k]
+            out2 = written[key[0]]["traceEvents"] if key else None
+        else:
+            fn = os.path.join(ctx.outdir, "rank0_with_counters.json")
+            out2 = _read_json(fn)["traceEvents"] if os.path.exists(fn) else None
+        ctx.prove(out2 is not None and len(out2) >= len(src), "counters-file-after-overlay-written", None)
+        if out2 is not None and len(out2) >= len(src):
+            ok = True
+            for a, b in zip(src, out2[:len(src)]):
+                ok = sand(ok, same(a, b))
+            ctx.prove(ok, "later-write-starts-from-unchanged-source-events", None)
     if ctx.mode == "sym" and (len(drawn) >= 3 or ctx.sk["struct"] == "I"):
         ctx.nontrivial(True)
 
